@@ -195,4 +195,29 @@ def runFuel (code : List Instr) : Nat → MState → Option MState
     | none => some m
     | some m' => runFuel code n m'
 
+/-! ## case lists of a tagless switch (cfg.go post-order `case switchIfStmt`, since 3b98047)
+
+  `for j := len(c.child) - 2; j >= 0; j-- { cond := c.child[j]; cond.tnext = body.start; setFNext(cond, nextTest);
+  nextTest = cond.start }; c.start = nextTest`: every condition of the list goes to the clause body when true and to the
+  next condition when false, the last one to the next clause; the clause starts at its first condition.
+  Before 3b98047 only `c.child[0]` was wired (F53): `chained = false`. -/
+
+/-- the conditions of `case c, ds…:` placed at `base`, leaving to `t` (the body) when one is true and to `f` (the next
+    clause) when all are false -/
+def compileCaseList (chained : Bool) : BExpr → List BExpr → (base t f : Nat) → List Instr
+  | c, [], base, t, f => compileCond c base t f
+  | c, d :: ds, base, t, f =>
+    if chained then compileCond c base t (base + c.size) ++ compileCaseList chained d ds (base + c.size) t f
+    else compileCond c base t f
+
+/-- the chained wiring IS the wiring of `c || (d || …)`: what `compile` does with the clause condition `caseList c ds` -/
+theorem compileCaseList_chained : ∀ (ds : List BExpr) (c : BExpr) (base t f : Nat),
+    compileCaseList true c ds base t f = compileCond (caseList c ds) base t f := by
+  intro ds
+  induction ds with
+  | nil => intro c base t f; rfl
+  | cons d ds ih =>
+    intro c base t f
+    simp only [compileCaseList, caseList, compileCond, if_true, ih d]
+
 end YaegiVerif.Core
